@@ -128,6 +128,9 @@ class WMSSource(MapLayer):
         size, offset, bbox = bbox_position_in_image(query.bbox, query.size, self.extent.bbox_for(query.srs))
         if size[0] == 0 or size[1] == 0:
             raise BlankImage()
+        if bbox[0] >= bbox[2] or bbox[1] >= bbox[3]:
+            # query does not intersect the extent in the SRS of the query
+            raise BlankImage()
         src_query = MapQuery(bbox, size, query.srs, format, dimensions=query.dimensions)
         resp = self.client.retrieve(src_query, format)
         return SubImageSource(resp, size=query.size, offset=offset, image_opts=self.image_opts)
